@@ -314,9 +314,6 @@ def ob_whole_run_terminal(mode: int, c0: int, c1: int, c2: int, c3: int, c4: int
     env = Env([c0, c1, c2, c3, c4])
     published: list = []
 
-    class Wb(Event):
-        i: int
-
     class RecAdapter(SymAdapter):
         async def write_to_event_stream(self, event) -> None:
             published.append(event)
@@ -328,15 +325,15 @@ def ob_whole_run_terminal(mode: int, c0: int, c1: int, c2: int, c3: int, c4: int
 
     class W(Workflow):
         @step
-        async def start(self, ctx: Context, ev: StartEvent) -> Wb | None:
-            ctx.send_event(Wb(i=0))
-            ctx.send_event(Wb(i=1))
+        async def start(self, ctx: Context, ev: StartEvent) -> SibEv | None:
+            ctx.send_event(SibEv(i=0))
+            ctx.send_event(SibEv(i=1))
             return None
 
         @step(num_workers=2)
-        async def work(self, ctx: Context, ev: Wb) -> StopEvent | None:
+        async def work(self, ctx: Context, ev: SibEv) -> StopEvent | None:
             await env.gate(ev.i)
-            ctx.write_event_to_stream(Wb(i=10 + ev.i))
+            ctx.write_event_to_stream(SibEv(i=10 + ev.i))
             if mode == 1 and ev.i == 0:
                 raise ValueError("boom")
             if mode >= 2:
